@@ -73,6 +73,7 @@ pub static C01_META: PropMeta = PropMeta {
 fn c01_profiles() -> Vec<(&'static str, Profile, u32, u32)> {
     let mut p = Profile::base();
     p.k_probe = 2;
+    p.k_comp = 4;
     p.probe_lifecycle_pct = 0;
     p.o_token = 10;
     p.max_ops = 40;
@@ -82,15 +83,22 @@ fn c01_profiles() -> Vec<(&'static str, Profile, u32, u32)> {
     p2.o_token = 14;
     p2.k_timer = 1;
     p2.max_ops = 50;
-    vec![("hist", p, 6000, 200_000), ("reuse", p2, 3000, 100_000)]
+    vec![("hist", p, 48000, 1000000), ("reuse", p2, 24000, 500000)]
 }
 
 pub static C01: HistProp = HistProp {
     id: "C01",
     meta: &C01_META,
     profiles: c01_profiles,
-    nontrivial: |f| f.in_batch_mutation > 0 || f.slot_reuse > 0,
-    classes: |_f, _c| {},
+    nontrivial: |f| f.in_batch_mutation > 0 || f.slot_reuse > 0 || f.comp_rereg_in_batch > 0,
+    classes: |f, c| {
+        if f.comp_sources > 0 {
+            c.push("composite_source");
+        }
+        if f.comp_rereg_in_batch > 0 {
+            c.push("composite_children_renumbered_mid_batch");
+        }
+    },
     epoll_each_step: false,
     workers: 8,
 };
@@ -115,7 +123,7 @@ fn c02_profiles() -> Vec<(&'static str, Profile, u32, u32)> {
     p.o_dispatch = 7;
     p.max_ops = 50;
     p.post_pct = 10;
-    vec![("hist", p, 6000, 150_000)]
+    vec![("hist", p, 48000, 750000)]
 }
 
 pub static C02: HistProp = HistProp {
@@ -156,7 +164,7 @@ fn c05_profiles() -> Vec<(&'static str, Profile, u32, u32)> {
     p.timer_future_pct = 20;
     p.max_timeout_ms = 3;
     p.err_pct = 3;
-    vec![("hist", p, 5000, 120_000)]
+    vec![("hist", p, 40000, 600000)]
 }
 
 pub static C05: HistProp = HistProp {
@@ -198,7 +206,7 @@ fn c06_profiles() -> Vec<(&'static str, Profile, u32, u32)> {
     p.max_ops = 50;
     p.k_probe = 1;
     p.probe_lifecycle_pct = 30;
-    vec![("hist", p, 6000, 200_000)]
+    vec![("hist", p, 48000, 1000000)]
 }
 
 pub static C06: HistProp = HistProp {
@@ -233,7 +241,7 @@ fn c07_profiles() -> Vec<(&'static str, Profile, u32, u32)> {
     p.probe_lifecycle_pct = 30;
     p.post_pct = 25;
     p.max_ops = 45;
-    vec![("hist", p, 6000, 150_000)]
+    vec![("hist", p, 48000, 750000)]
 }
 
 pub static C07: HistProp = HistProp {
@@ -271,7 +279,7 @@ fn c08_profiles() -> Vec<(&'static str, Profile, u32, u32)> {
     p.probe_lifecycle_pct = 50;
     p.post_pct = 20;
     p.max_ops = 35;
-    vec![("hist", p, 5000, 150_000)]
+    vec![("hist", p, 40000, 750000)]
 }
 
 pub static C08: HistProp = HistProp {
@@ -309,7 +317,7 @@ fn c09_profiles() -> Vec<(&'static str, Profile, u32, u32)> {
     p.k_probe = 2;
     p.probe_lifecycle_pct = 30;
     p.max_ops = 40;
-    vec![("hist", p, 6000, 150_000)]
+    vec![("hist", p, 48000, 750000)]
 }
 
 pub static C09: HistProp = HistProp {
@@ -351,7 +359,7 @@ fn c13_profiles() -> Vec<(&'static str, Profile, u32, u32)> {
     p.k_timer = 1;
     p.k_gen = 1;
     p.max_ops = 40;
-    vec![("hist", p, 8000, 200_000)]
+    vec![("hist", p, 64000, 1000000)]
 }
 
 pub static C13: HistProp = HistProp {
@@ -392,7 +400,7 @@ fn c14_profiles() -> Vec<(&'static str, Profile, u32, u32)> {
     p.o_cause = 10;
     p.post_pct = 30;
     p.max_ops = 35;
-    vec![("hist", p, 5000, 150_000)]
+    vec![("hist", p, 40000, 750000)]
 }
 
 pub static C14: HistProp = HistProp {
@@ -435,7 +443,7 @@ fn c15_profiles() -> Vec<(&'static str, Profile, u32, u32)> {
     p.o_token = 8;
     p.o_cause = 14;
     p.max_ops = 35;
-    vec![("hist", p, 5000, 120_000)]
+    vec![("hist", p, 40000, 600000)]
 }
 
 pub static C15: HistProp = HistProp {
@@ -479,7 +487,7 @@ fn c16_profiles() -> Vec<(&'static str, Profile, u32, u32)> {
     p.o_insert = 8;
     p.post_pct = 25;
     p.max_ops = 40;
-    vec![("hist", p, 5000, 150_000)]
+    vec![("hist", p, 40000, 750000)]
 }
 
 pub static C16: HistProp = HistProp {
